@@ -148,8 +148,11 @@ claim("C07", "proof",
       "decide +kernel over the whole finite domain — complete, not sampled): the hand model used by the propagation model equals the code; "
       "the code's degree equals the degree of Circom's expression algebra for every operator and operand degrees (so ~x and !x of a "
       "non-constant x are non-quadratic); the tables are monotone, hence range lifting is sound: true degrees below the operand upper ends give "
-      "an algebra degree below the result's upper end; joins keep upper bounds. PARTIAL beyond the tables: expression/path-level soundness is "
-      "not yet a Lean theorem; it is covered by (L2) node-by-node equality of real degree annotations with the Lean propagation model and (L1) "
+      "an algebra degree below the result's upper end; joins keep upper bounds. Expression level (C07_expr_sound, mutual induction over all "
+      "expression forms): for every expression, abstract environment and degree assignment it bounds, every range propagate_degrees writes "
+      "on any node bounds that node's degree in the algebra (operators, constant-condition switches, constant calls, inline arrays, array "
+      "accesses/updates with constant, non-constant or unknown indices incl. the first-assignment rule, phi). PARTIAL: path-level soundness is "
+      "not a Lean theorem; it is covered by (L2) node-by-node equality of real degree annotations with the Lean propagation model and (L1) "
       "an independent least-fixpoint analysis of the algebra over the same SSA CFG (every claim must be >= the fixpoint; CS0013 only for "
       "right-hand sides the fixpoint accepts).",
       "Lean kernel + standard axioms; the harness that executes the real functions; the algebra-to-MvPolynomial link is not formalised.",
